@@ -164,7 +164,7 @@ def gen_pair(rng) -> tuple[float, float, str]:
 def gen_cases(tier: str, seed: int):
     n_batches = {"quick": 64, "thorough": 4000}[tier]
     kinds = ["log1p_exp", "log1m_exp", "log_sum_exp", "log_diff_exp", "lrf_binary", "lrf_mixed", "lrf_compare",
-             "lrf_iadd"]
+             "lrf_iadd", "lrf_program"]
     yield {"kind": "directed", "seed": [seed, -1], "n": 1}
     for b in range(n_batches):
         yield {"kind": kinds[b % len(kinds)], "seed": [seed, b], "n": 400}
@@ -405,6 +405,68 @@ def run_case(case, obs) -> None:  # noqa: C901, PLR0912, PLR0915
                             f"{'LogRepFloat(log_val=%r) %s %r' % (a, nm, c) if side == 'left' else '%r %s LogRepFloat(log_val=%r)' % (c, nm, a)} = {r!r}, real arithmetic says {want}",
                         )
             obs.token("cmp-mixed", mag_class(a), mag_class(c) if c > 0 else str(c))
+        elif kind == "lrf_program":
+            # histories mixing binary operators and in-place accumulation on a small pool of weights: results must be
+            # right and operands (and every other live weight) must keep their value (no aliasing through results)
+            base = gen_logval(rng)
+            lvs = [(-INF if rng.integers(0, 4) == 0 else base + float(rng.uniform(-5, 5))) for _ in range(4)]
+            pool = [LogRepFloat(log_val=v) for v in lvs]
+            exact = [None if v == -INF else D(v) for v in lvs]  # exact log-values (None = zero weight)
+
+            def ex_add(a, b):
+                if a is None:
+                    return b
+                if b is None:
+                    return a
+                hi, lo = (a, b) if a > b else (b, a)
+                return hi + ex_log1p_exp_neg(lo - hi)
+
+            hist_ops = []
+            for _step in range(int(rng.integers(2, 9))):
+                i, j = int(rng.integers(0, len(pool))), int(rng.integers(0, len(pool)))
+                op = str(rng.choice(["add", "iadd", "mul", "radd0"]))
+                hist_ops.append((op, i, j))
+                try:
+                    if op == "add":
+                        pool.append(pool[i] + pool[j])
+                        exact.append(ex_add(exact[i], exact[j]))
+                    elif op == "mul":
+                        pool.append(pool[i] * pool[j])
+                        exact.append(None if exact[i] is None or exact[j] is None else exact[i] + exact[j])
+                    elif op == "radd0":
+                        r = 0 + pool[i]
+                        if isinstance(r, LogRepFloat):
+                            pool.append(r)
+                            exact.append(exact[i])
+                    else:
+                        if i == j:
+                            continue
+                        pool[i] += pool[j]
+                        exact[i] = ex_add(exact[i], exact[j])
+                except Exception as e:  # noqa: BLE001
+                    obs.count("judged")
+                    obs.violation(f"LogRepFloat.program:raises-{type(e).__name__}", f"history {hist_ops} on log-values {lvs} raised {e!r}")
+                    break
+                if len(pool) > 8:
+                    pool, exact = pool[:8], exact[:8]
+                for k, (w, ex) in enumerate(zip(pool, exact)):
+                    obs.count("judged")
+                    obs.count("judged.program")
+                    if not isinstance(w, LogRepFloat):
+                        continue
+                    if ex is None:
+                        bad = w.log_val != -INF
+                    else:
+                        bad = not (abs(D(w.log_val) - ex) <= Decimal(K * EPS * 10) * max(abs(ex), abs(D(base)), Decimal(1))) if w.log_val == w.log_val and abs(w.log_val) != INF else True
+                    if bad:
+                        obs.violation("LogRepFloat.program:value-corrupted",
+                                      f"after history {hist_ops} on initial log-values {lvs} weight #{k} has log_val {w.log_val!r}, exact "
+                                      f"{'-inf' if ex is None else format(ex, '.17E')} (an operand or an unrelated weight changed: results alias operands?)")
+                        break
+                else:
+                    continue
+                break
+            obs.token("program", mag_class(base), tuple(sorted({o[0] for o in hist_ops})), -INF in lvs)
         elif kind == "lrf_iadd":
             n = int(rng.integers(1, 50))
             base = gen_logval(rng)
